@@ -34,8 +34,11 @@ class R:
 
     def inline_ok(self, I, ci, body):
         # helper methods of the iterator itself (e.g. a `pop_short_option`) are looked into
-        return base.self_adt(body) == 'arguments::ArgsIter' and body.kind == 'AssocFn' and (body.impl_trait is None) and not any(
-            b['term']['k'] == 'call' and F.norm_path((b['term']['func'] or {}).get('path') or '') == body.npath for b in body.blocks)
+        rec = any(b['term']['k'] == 'call' and F.norm_path((b['term']['func'] or {}).get('path') or '') == body.npath for b in body.blocks)
+        if base.self_adt(body) == 'arguments::ArgsIter' and body.kind == 'AssocFn' and (body.impl_trait is None):
+            return not rec
+        # free predicate helpers of the same module (`starts_option(bytes)`, `is_double_dash(bytes)`)
+        return body.kind == 'Fn' and base.self_adt(body) is None and body.npath.startswith('arguments::') and not rec
 
     def on_load(self, I, w, depth, place):
         v = w.store.get((depth, place['l']), TOP)
@@ -69,6 +72,28 @@ class R:
             if self.tok is None:
                 return [(w.with_st(w.st + ('take:none',)), none())]
             return [(w.with_st(w.st + ('take',)), some(('sym', 'token')))]
+        if ci.name in ('eq', 'ne') and len(args) == 2 and self.tok is not None:
+            # comparison of the whole token with a constant (`bytes == b"--"`)
+            vals = []
+            for a in args:
+                for _ in range(3):
+                    if a[0] == 'ref':
+                        a = I.read(w, a[1])
+                vals.append(a)
+            if ('sym', 'token') in vals and any(v[0] == 'cstr' for v in vals):
+                c = [v for v in vals if v[0] == 'cstr'][0][1]
+                ln, d0, d1 = self.tok
+                if c == b'--':
+                    r = ln == '2' and d0 and d1
+                elif c == b'-':
+                    r = ln == '1' and d0
+                elif c == b'':
+                    r = ln == '0'
+                else:
+                    return None
+                if ci.name == 'ne':
+                    r = not r
+                return [(w, TRUE if r else FALSE)]
         if ci.npath in ('core::str::<impl str>::as_bytes',):
             return [(w, args[0])]
         if ci.npath in ('core::slice::<impl [T]>::len', 'core::str::<impl str>::len') and args[0] == ('sym', 'token'):
